@@ -720,6 +720,8 @@ def c18_params(max_rounds=4):
         extra_b_threads=st.integers(0, 2),
         cb_on_closer=st.booleans(),   # the side that closes the channel has a callback registered on it
         b_main_callback=st.booleans(),  # the B body registers a callback on its exec channel before it returns
+        # A asks for the remote status (which allocates and releases a channel id internally) during the round
+        a_status=st.sampled_from([None, None, "inline", "thread"]),
     ))
     return st.lists(rnd, min_size=1, max_size=max_rounds)
 
@@ -756,12 +758,16 @@ def c18_conversation(conv, rounds):
             tn = f"x{r}.{t}"
             extra.append(["spawn", tn, [["newchannel", f"{name}.x{t}"], ["close", f"{name}.x{t}"], ["drop", f"{name}.x{t}"]]])
         joins = [["join", f"x{r}.{t}"] for t in range(p["extra_b_threads"])]
+        a_round = creator_ops if p["creator"] == "a" else peer_ops
+        if p.get("a_status") == "inline":
+            a_round = [["status"]] + a_round
+        elif p.get("a_status") == "thread":
+            a_round = [["spawn", f"st{r}", [["status"]]]] + a_round + [["join", f"st{r}"]]
+        a_ops += a_round
         if p["creator"] == "a":
-            a_ops += creator_ops
             b_ops += extra + peer_ops + joins
         else:
             b_ops += extra + creator_ops + joins
-            a_ops += peer_ops
         closer = {"creator_close": p["creator"], "peer_close": "b" if p["creator"] == "a" else "a"}.get(p["end"])
         expect.append(dict(conv=conv, r=r, name=name, creator=p["creator"], tok_c=fp_of(tok_c), tok_p=fp_of(tok_p),
                            end=p["end"], cbkey=f"{closer}:{conv}:cb{r}" if (closer and p.get("cb_on_closer")) else None,
